@@ -60,6 +60,10 @@ func (u *unit) prepare(o *oblig) {
 	for _, a := range heapIndexTerms(o.goalSk, 12) {
 		extra = append(extra, binder{a, u.m.offSort()})
 	}
+	// one-step neighbours: field reads in the goal that mention a skolem constant (linked structures)
+	if len(pureSk) > 0 {
+		extra = append(extra, u.fieldReadsOf(o.goalSk, pureSk, 16)...)
+	}
 	sk = append(sk, o.cands...)
 	sk = append(sk, u.ufApps(o.goalSk, 6)...)
 	for i := len(o.pc) - 1; i >= 0 && i >= len(o.pc)-4; i-- {
